@@ -216,6 +216,14 @@ def stepAll (m : Cqm) (line : String) : Cqm × String :=
   | ["exact", atol, rtol] => match parseRat? atol, parseRat? rtol with
     | some atol, some rtol => (m, showExact m atol rtol)
     | _, _ => (m, "bad-op")
+  | ["feasg", k] => match k.toNat? with
+    | some k =>
+      let cs := Feas.evalCons m (fun _ _ => 0)
+      let a := (Feas.iterConstraintDataG k none cs 0).2
+      let b := (Feas.iterViolationsG k false false none cs 0).2
+      let c := (Feas.checkFeasibleG k 0 0 cs 0).isNone
+      (m, s!"G {bit a}{bit b}{bit c}")
+    | none => (m, "bad-op")
   | ["feas0", k] => match k.toNat? with
     | some k => (m, showFeas0 m k)
     | none => (m, "bad-op")
